@@ -15,6 +15,8 @@ class Impl:
         self.atts = []
         self.assets = {}
         self.other = None   # the other side of a deep copy
+        from .common import log_turn
+        self.debug = log_turn()
 
     def asset(self, name):
         if name is None: return None
@@ -23,6 +25,10 @@ class Impl:
         return self.assets[name]
 
     def step(self, op):
+        from .common import debug_logging
+        with debug_logging(self.debug): return self._step(op)
+
+    def _step(self, op):
         from maltoolbox.attackgraph import AttackGraphNode, Attacker
         from maltoolbox.attackgraph import query
         from maltoolbox.attackgraph.analyzers import apriori
@@ -298,12 +304,13 @@ class Gen:
             op['tags'] = r.choice([[], [], ['suppress'], ['a', 'b'], ['hidden', 'suppress']])
             op['suppress'] = 'suppress' in op['tags']
             op['ttc'] = jtxt(r.choice([None, {'type': 'function', 'name': 'Exponential', 'arguments': [0.1]},
+                                       {'type': 'function', 'name': 'Exponential', 'arguments': [1e-05]},      # json writes 1e-05: no dot
                                        {'type': 'function', 'name': 'Enabled', 'arguments': []}, {}]))      # ({}: falsy, but not None)
             if t == 'defense':
-                op['defense'] = repr(r.choice([0.0, 1.0, 0.5, 0.25])); op['defOne'] = op['defense'] == '1.0'
+                op['defense'] = repr(r.choice([0.0, 1.0, 0.5, 0.25, 1e-05])); op['defOne'] = op['defense'] == '1.0'
             if t in ('exist', 'notExist'): op['exist'] = r.random() < 0.5
             if r.random() < 0.3: op['mitre'] = 'T1' + str(r.randint(100, 999))
-            if r.random() < 0.3: op['extras'] = jtxt({'pos': [r.randint(0, 9), r.randint(0, 9)], 'note': 'x'})
+            if r.random() < 0.3: op['extras'] = jtxt({'pos': [r.randint(0, 9), r.randint(0, 9)], 'note': 'x', **({'w': 2.5e-07} if r.random() < 0.3 else {})})
         self.snames = getattr(self, 'snames', {}); self.assets_of = getattr(self, 'assets_of', {})
         self.ops.append(op)
         if eff in {self.ids[x] for x in self.live_n}:
@@ -516,7 +523,11 @@ class Gen:
 
     def lookup_op(self):
         ids = sorted(self.used_ids | {-1, self.next_n, self.next_n + 1})
-        names = sorted(set(self.names.values()) | {'A:nosuch', 'zz'})
+        live = set(self.names.values())
+        # near misses of live names (padded, other case, cut, extended): a lookup answers for exactly the name asked
+        near = {f(n) for n in sorted(live)[:4] for f in (lambda x: ' ' + x, lambda x: x + ' ', str.lower, str.upper, lambda x: x[:-1],
+                                                          lambda x: x + 'x', lambda x: x.replace(':', ': '), lambda x: x + '\n')}
+        names = sorted(live | near | {'A:nosuch', 'zz', ''})
         return {'k': 'lookup', 'ids': ids, 'names': names, 'aids': sorted(self.used_aids | {-1, self.next_a})}
 
 def run_pair(ops):
